@@ -1,14 +1,18 @@
 #!/bin/bash
 # usage: tools/mutsweep.sh <dir-with-*/patch.diff or */*/patch.diff> [props...]
 # For every patch: scratch copy of /repo (under /tmp/ms), apply, run the quick checks against the copy
-# (GTVERIF_REPO), report which properties' checks fire. /repo itself is never touched.
+# (GTVERIF_REPO; `gtverif sweep` = all properties on one load), report which properties' checks fire.
+# /repo itself is never touched.  Env: MS_P (parallelism, default 6), GTVERIF_BIN, GTVERIF_CHECKER
+# (frozen copies of the binary / checker directory so that development can go on during a sweep).
 set -u
 root="$1"; shift
 props="$*"
-[ -z "$props" ] && props=$(${GTVERIF_BIN:-/verif/bin/gtverif} list | grep '^C' | tr '\n' ' ')
+BIN=${GTVERIF_BIN:-/verif/bin/gtverif}
+[ -z "$props" ] && props=$($BIN list | grep '^C' | tr '\n' ' ')
 export GOFLAGS=-mod=mod GOPROXY=off GOSUMDB=off GOTOOLCHAIN=local GOWORK=off
 one() {
   patch="$1"; props="$2"
+  BIN=${GTVERIF_BIN:-/verif/bin/gtverif}
   name=$(echo "$patch" | sed 's#/patch.diff##; s#.*/\([^/]*/[^/]*\)$#\1#; s#/#-#g')
   d=/tmp/ms/$name; rm -rf $d; mkdir -p $d/verif/evidence
   rsync -a --exclude .git /repo/ $d/repo/
@@ -16,9 +20,12 @@ one() {
   ln -s ${GTVERIF_CHECKER:-/verif/checker} $d/verif/checker
   if ! (cd $d/repo && patch -p1 -s -f < "$patch" >/dev/null 2>$d/err); then echo "$name: PATCH-FAILS $(head -2 $d/err | tr '\n' ' ')"; rm -rf $d; return; fi
   fired=""
+  plist=$(echo $props | tr ' ' ',')
+  all=$(GTVERIF_REPO=$d/repo GTVERIF_VERIF=$d/verif $BIN sweep -props "$plist" 2>&1)
   for p in $props; do
-    out=$(GTVERIF_REPO=$d/repo GTVERIF_VERIF=$d/verif ${GTVERIF_BIN:-/verif/bin/gtverif} check -prop $p -tier quick 2>&1); rc=$?
-    if [ $rc -ne 0 ]; then
+    rc=$(echo "$all" | grep "^== $p rc=" | sed 's/.*rc=//')
+    if [ "${rc:-2}" != "0" ]; then
+      out=$(echo "$all" | sed -n "/^== $p begin/,/^== $p rc=/p")
       keys=$(echo "$out" | grep -v '^NOTE' | grep -o '^[^ ]*: \[[^]]*\]\( undecided:\)\?' | sed 's/^[^ ]*: //; s/\] undecided:/]?/' | head -4 | tr '\n' ' ')
       nv=$(echo "$out" | grep -v '^NOTE' | grep '^[^ ]*: \[' | grep -vc 'undecided:')
       nu=$(echo "$out" | grep -v '^NOTE' | grep '^[^ ]*: \[' | grep -c 'undecided:')
